@@ -48,7 +48,9 @@ def run(tier, seed, replay=None):
         rule="sequences of 4-17 operations on one checkpoint file: writes and reads of Index (incl. the extreme values), double (0, 1e-300, -DBL_MAX, dyadics), bool, "
              "strings (empty, non-ASCII, multi-line, long), vectors of those (length 0-4), matrices 0x0, 3x0, 0x3, 1x1, 1x5, 5x1, 2x3, 3x2, 4x4, 40x30, 3-vectors and "
              "lists of 3-vectors under /, /g1, /g1/sub, /g2; most reads and 40 % of the writes hit names written before (same and different shapes); the file is "
-             "reopened read-only or for modification in between; every read opens a fresh read-only handle",
+             "reopened read-only or for modification in between; every read opens a fresh read-only handle. large values (one scenario in ten): matrices Nx1, 1xN, "
+             "square and near-square, double and Index vectors with 1000 ... 250000 elements (element counts on both sides of 4096, 8192, 16384, 32768, 65536), written "
+             "once, over a small value, or replaced by a small value; compared bit for bit by the harness (tags big:*)",
         assumptions=["HDF5 itself is not modelled: the store model is the specification, the real library is the implementation under test (this also validates the "
                      "store assumptions on this HDF5 version)",
                      "run under AddressSanitizer / UBSan: a crash or report is a harness abort and counts as a violation",
